@@ -37,12 +37,16 @@ static int process_data(xfrm_stream_t *stream, const void *in,
 	xfrm_zstd_t *zstd = (xfrm_zstd_t *)stream;
 	ZSTD_outBuffer out_desc;
 	ZSTD_inBuffer in_desc;
+	bool finishing;
 	size_t ret;
 
 	if (flush_mode < 0 || flush_mode >= XFRM_STREAM_FLUSH_COUNT)
 		flush_mode = XFRM_STREAM_FLUSH_NONE;
 
-	while (in_size > 0 && out_size > 0) {
+	/* keep going without input until the compressor has emitted its tail */
+	finishing = zstd->compress && flush_mode == XFRM_STREAM_FLUSH_FULL;
+
+	while ((in_size > 0 || finishing) && out_size > 0) {
 		memset(&in_desc, 0, sizeof(in_desc));
 		in_desc.src = in;
 		in_desc.size = in_size;
@@ -73,9 +77,13 @@ static int process_data(xfrm_stream_t *stream, const void *in,
 		out = (char *)out + out_desc.pos;
 		out_size -= out_desc.pos;
 		*out_written += out_desc.pos;
+
+		/* frame epilogue completely written */
+		if (finishing && in_size == 0 && ret == 0)
+			return XFRM_STREAM_END;
 	}
 
-	if (flush_mode != XFRM_STREAM_FLUSH_NONE) {
+	if (flush_mode != XFRM_STREAM_FLUSH_NONE && !finishing) {
 		if (in_size == 0) {
 			/* out of input while a frame is still incomplete */
 			if (!zstd->compress && zstd->mid_frame)
